@@ -1243,7 +1243,20 @@ func round7(w *World, r *Report, prop string) {
 			}
 			// a loop whose range is mod.Choices() and that calls addChoice on every round
 			ok := false
-			for _, l := range ssaLoops(f) {
+			type floop struct {
+				g *ssa.Function
+				l ssaLoop
+			}
+			var all []floop
+			for _, g := range bodiesDeep(f, 1) {
+				if g.Pkg == f.Pkg {
+					for _, l := range ssaLoops(g) {
+						all = append(all, floop{g, l})
+					}
+				}
+			}
+			for _, fl := range all {
+				l := fl.l
 				overChoices := false
 				for _, e := range l.Entries {
 					for _, in := range e.Instrs {
@@ -2004,7 +2017,7 @@ func r8RangeLoopLeavesOnAcceptance(w *World, r *Report, rule string) {
 // child is written depends on the kind of its schema node alone.
 func r8XMLWritesEveryChild(w *World, r *Report, rule string) {
 	sym := NewSym(w)
-	sym.Expand = false
+	sym.Expand = true // a kind test may be asked through a predicate of the package
 	n := 0
 	for _, fn := range allFuncs(w.SSAPkg("data/encoding")) {
 		if isTestFile(w, fn.Pos()) || fn.Blocks == nil || len(ssaLoops(fn)) == 0 {
@@ -2072,7 +2085,7 @@ func r8ChoiceRegistered(w *World, r *Report, rule string) {
 		panic(undecided{"schema.addChoiceToChoices"})
 	}
 	sym := NewSym(w)
-	sym.Expand = false
+	sym.Expand = true // the type test may be asked through a predicate of the package
 	n, why := 0, ""
 	for _, b := range f.Blocks {
 		for _, in := range b.Instrs {
